@@ -25,6 +25,7 @@ V_Q = [0, 1, 2, 127, 128, 32767, 32768, 10 ** 12]
 V_2 = V_Q + [2 ** 31 - 1, 2 ** 31, 5 * 10 ** 14]
 V_3T = V_Q + [2 ** 31 - 1, 2 ** 31]
 B_4 = [127, 128, 2 ** 31 - 1, 10 ** 12]
+B_4S = [127, 128, 32767, 32768, 2 ** 31 - 1, 2 ** 31, 10 ** 12]
 
 KINDS = {
     "stored": "stored matrix differs from the given one",
@@ -447,7 +448,7 @@ def run(ctx: Ctx) -> None:
     _public(ctx, agg, "public_n3_VQ", 3, V_Q, False,
             full if quick else allm)
     # n = 4 over {0, 1, B}
-    for B in B_4:
+    for B in B_4S:
         _public(ctx, agg, f"public_n4_sym_B{B}", 4, [0, 1, B], True, allm)
     if quick:
         _public(ctx, agg, "public_n4_asym_B127", 4, [0, 1, 127], False,
